@@ -99,6 +99,8 @@ type Ctx struct {
 	crumbPath string
 	crumbF    *os.File
 	crumbMax  int
+	wsMu      sync.Mutex
+	ws        []*W
 }
 
 type replayFile struct {
@@ -155,6 +157,13 @@ func Run(t *testing.T, id string, body func(c *Ctx)) {
 		c.res.Replay = true
 	}
 	debug.SetGCPercent(200)
+	wd := 180.0
+	if s := os.Getenv("VERIF_WATCHDOG_S"); s != "" {
+		wd, _ = strconv.ParseFloat(s, 64)
+	}
+	if wd > 0 {
+		go c.watchdog(time.Duration(wd * float64(time.Second)))
+	}
 	body(c)
 	c.finish()
 }
@@ -351,12 +360,67 @@ type W struct {
 	distinct map[uint64]struct{}
 	fails    []fail
 	scratch  bool
+
+	wdStart atomic.Int64 // start (unix nanos) of the case being executed, 0 when idle
+	wdCase  atomic.Value // the case being executed (for the watchdog's breadcrumb)
 }
 
 type fail struct{ sig, what string }
 
 func (c *Ctx) newW(part string) *W {
-	return &W{c: c, part: part, outcomes: map[string]struct{}{}, distinct: map[uint64]struct{}{}}
+	w := &W{c: c, part: part, outcomes: map[string]struct{}{}, distinct: map[uint64]struct{}{}}
+	c.wsMu.Lock()
+	c.ws = append(c.ws, w)
+	if len(c.ws) > 4096 { // scratch accumulators come and go
+		live := c.ws[:0]
+		for _, x := range c.ws {
+			if x.wdStart.Load() != 0 || !x.scratch {
+				live = append(live, x)
+			}
+		}
+		c.ws = live
+	}
+	c.wsMu.Unlock()
+	return w
+}
+
+// watchdog kills the process when one case has been executing for longer than
+// limit: a hang inside the code under test (an endless loop in Pop, a parser
+// that never terminates) cannot be interrupted from Go, so the case is written
+// to the breadcrumb file and the process panics; the driver attributes the
+// crash to that case and re-runs it in fresh processes before reporting it.
+// The limit is generous (minutes for cases that take micro- to milliseconds)
+// so that machine load cannot trigger it.
+func (c *Ctx) watchdog(limit time.Duration) {
+	for {
+		time.Sleep(2 * time.Second)
+		now := time.Now().UnixNano()
+		c.wsMu.Lock()
+		ws := append([]*W(nil), c.ws...)
+		c.wsMu.Unlock()
+		for _, w := range ws {
+			st := w.wdStart.Load()
+			if st != 0 && now-st > int64(limit) {
+				cs := w.wdCase.Load()
+				if box, ok := cs.(wdBox); ok {
+					c.crumbHang(w.part, box.v)
+				}
+				panic(fmt.Sprintf("vx: watchdog: a case of part %q has been executing for more than %v (hang in the code under test?)", w.part, limit))
+			}
+		}
+	}
+}
+
+type wdBox struct{ v any }
+
+func (c *Ctx) crumbHang(part string, cs any) {
+	if c.crumbPath == "" {
+		return
+	}
+	b, _ := json.Marshal(cs)
+	rf := replayFile{Property: c.ID, Sig: c.ID + "/" + part + "/hang", What: "a single case did not terminate within the watchdog limit", Part: part, Case: b}
+	rb, _ := json.Marshal(&rf)
+	os.WriteFile(c.crumbPath, rb, 0o644)
 }
 
 // Ctx returns the run context.
@@ -505,6 +569,9 @@ type Opts struct {
 
 // runCase executes check on one case with panic recovery.
 func runCase[T any](w *W, x T, check func(w *W, x T)) {
+	w.wdCase.Store(wdBox{x})
+	w.wdStart.Store(time.Now().UnixNano())
+	defer w.wdStart.Store(0)
 	defer func() {
 		if r := recover(); r != nil {
 			st := string(debug.Stack())
